@@ -102,3 +102,42 @@ pub open spec fn parsed_wf(t: Term) -> bool {
 /// assumed in this unit, proved in unit `term_eq` (C06): comparing with the placeholder
 pub assume_specification[ <Term as PartialEq>::eq ](a: &Term, b: &Term) -> (r: bool)
     ensures *b == Term::Placeholder ==> r == (*a == Term::Placeholder);
+
+/// C12: everything stored in the slots is well-formed
+pub open spec fn mid_wf(m: MidParseResult) -> bool {
+    &&& (m.term matches Some(t) ==> parsed_wf(t))
+    &&& (m.truth matches Some(t) ==> truth_wf(t))
+    &&& (m.budget matches Some(b) ==> budget_wf(b))
+}
+/// slots are only ever filled, never overwritten or emptied, while consuming one input
+pub open spec fn mid_extends(a: MidParseResult, b: MidParseResult) -> bool {
+    &&& (a.budget is Some ==> b.budget == a.budget)
+    &&& (a.term is Some ==> b.term == a.term)
+    &&& (a.punctuation is Some ==> b.punctuation == a.punctuation)
+    &&& (a.stamp is Some ==> b.stamp == a.stamp)
+    &&& (a.truth is Some ==> b.truth == a.truth)
+}
+/// C12: well-formedness of a parse result
+pub open spec fn narsese_wf(v: Narsese) -> bool {
+    match v {
+        NarseseValue::Term(t) => parsed_wf(t),
+        NarseseValue::Sentence(s) => parsed_wf(sentence_term(s)) && sentence_truth_wf(s),
+        NarseseValue::Task(t) => parsed_wf(sentence_term(t.0)) && sentence_truth_wf(t.0) && budget_wf(t.1),
+    }
+}
+/// C15: the kind of the result is decided by which slots are filled
+pub open spec fn classified(m: MidParseResult, r: ParseResult<Narsese>) -> bool {
+    match (m.term, m.punctuation, m.budget) {
+        (None, _, _) => r is Err,
+        (Some(t), Some(p), Some(b)) => r matches Ok(NarseseValue::Task(k)) && k.1 == b
+            && sentence_term(k.0) == t && sentence_punctuation(k.0) == p,
+        (Some(t), Some(p), None) => r matches Ok(NarseseValue::Sentence(s))
+            && sentence_term(s) == t && sentence_punctuation(s) == p,
+        (Some(t), None, _) => r == Ok::<Narsese, ParseError>(NarseseValue::Term(t)),
+    }
+}
+
+/// R5: `errs.join("\n\t")` (slice::join needs the unstable `Join` trait to be specified) is
+/// replaced by this opaque helper; error text is outside every property.  Assumed not to panic.
+#[verifier::external_body]
+pub fn vx_join(errs: &Vec<String>) -> String { errs.join("\n\t") }
